@@ -82,6 +82,7 @@ def fmtPs (st : St) : String :=
   match st with
   | .h264 p => ",".intercalate ((ps264 p).map fmtParam)
   | .h265 p => ",".intercalate ((ps265 p).map fmtParam)
+  | .m4v cfg => Hex.encode cfg
   | _ => ""
 
 def switchTo (st desc : St) : St :=
@@ -97,6 +98,8 @@ def parseDesc (codec : String) (ps : List String) : Option St :=
   | _, _ => none
 
 structure DS where
+  /-- stream modes: is a reader attached? -/
+  attached : Bool := true
   st : St := .none
   codec : String := ""
   /-- always-available history: parameters of the offline description -/
@@ -179,8 +182,27 @@ def stepDS (d : DS) (op impl : String) : DS × DrvOut :=
       let r := step d.st ("w " ++ " ".intercalate args) impl
       ({ d with st := r.1 }, r.2)
     | some _, _ => (d, { model := "bad-op" })
+    | none, ["detach"] => ({ d with attached := false }, { model := if impl == "bad-op" then "bad-op" else "ok" })
+    | none, ["attach"] => ({ d with attached := true }, { model := if impl == "bad-op" then "bad-op" else "ok" })
+    | none, ["desc"] =>
+      let m := "p=" ++ fmtPs d.st
+      let verdict := if impl == m || impl == "bad-op" then "ok"
+        else "FAIL the published description does not report the most recent parameter sets (received while no reader was attached?)"
+      (d, { model := if impl == "bad-op" then "bad-op" else m, spec := verdict })
     | none, _ =>
-      let r := step d.st op impl
-      ({ d with st := r.1, offline := none }, r.2)
+      if d.attached then
+        let r := step d.st op impl
+        ({ d with st := r.1, offline := none }, r.2)
+      else
+        -- no reader: nothing is delivered, but the format updater must still see the unit
+        let r := step d.st op ""
+        let m := r.2.model
+        let expected := if m == "panic" || m == "bad-op" then m
+          else match m.splitOn " p=" with
+            | [_, ps] => "noreader p=" ++ ps
+            | _ => m
+        let verdict := if impl == expected then "ok"
+          else "FAIL parameter sets received while no reader was attached were not recorded: the description is stale"
+        ({ d with st := r.1 }, { model := expected, spec := verdict })
 
 def main (args : List String) : IO UInt32 := runDriver args ({} : DS) stepDS
